@@ -111,6 +111,10 @@ func runC01(r *Run) {
 	checkNodeLocalConfig(r, "R8", sc)
 	r.Rule("R9", "DET.unordered-keys: the result of maps.Keys/maps.Values in S∪K must be passed to a sort function in the same function")
 	detMapsKeys(r, sc, inScope)
+	r.Rule("R10", "OWN.process-local-state (same rule code as C20 R1): no consensus-scope write to memory that lives in the process (keeper/decorator/precompile fields, maps and concurrent containers they hold) — such a cache survives discarded branches (simulations, failed transactions) and restarts differently on every replica")
+	r.Import("R10/C20.", []string{"R1"}, func(r2 *Run) { detProcessLocalWrites(r2, sc) })
+	r.Rule("R11", "DET.local-time: a time.Time built in consensus scope from a timestamp (time.Unix / UnixMilli / UnixMicro, which return the host's local zone) or converted with Local()/In(time.Local) is not queried for calendar fields or formatted (Year, Month, Day, Hour, Weekday, YearDay, Date, Clock, ISOWeek, Format, String, AddDate, Truncate to days, Zone, Location, MarshalJSON/Text) unless it went through UTC() first: the result depends on the validator's TZ setting")
+	detLocalTime(r, sc, S)
 	runDetControls(r)
 	_ = P
 }
@@ -959,4 +963,89 @@ func detMapsKeys(r *Run, sc *Scopes, inScope map[*ssa.Function]string) {
 		})
 	}
 	r.Count("R9 maps.Keys/Values calls in S∪K", n)
+}
+
+// ---------- R11 local time ----------
+
+var calendarMethods = map[string]bool{"Year": true, "Month": true, "Day": true, "Hour": true, "Minute": true, "Weekday": true, "YearDay": true,
+	"Date": true, "Clock": true, "ISOWeek": true, "Format": true, "AppendFormat": true, "String": true, "GoString": true, "AddDate": true, "Zone": true,
+	"ZoneBounds": true, "Location": true, "MarshalJSON": true, "MarshalText": true, "IsDST": true}
+
+func detLocalTime(r *Run, sc *Scopes, S []*ssa.Function) {
+	P := r.P
+	n, bad := 0, 0
+	for _, fn := range S {
+		if isGeneratedFile(P.FileOf(fnPos(fn))) {
+			continue
+		}
+		eachCall(fn, func(ci CallInfo) {
+			local := ci.PkgPath == "time" && ci.Recv == "" && (ci.Name == "Unix" || ci.Name == "UnixMilli" || ci.Name == "UnixMicro")
+			local = local || (ci.PkgPath == "time" && ci.Recv == "Time" && ci.Name == "Local")
+			if !local {
+				return
+			}
+			v := ci.Instr.Value()
+			if v == nil {
+				return
+			}
+			n++
+			// follow the local-zone time value inside this function (through copies, phis, locals and into
+			// Haqq callees one level) until UTC()/In()/Unix*() is applied
+			type item struct {
+				v     ssa.Value
+				depth int
+			}
+			seen := map[ssa.Value]bool{}
+			work := []item{{v, 0}}
+			report := func(at ssa.Instruction, what string) {
+				bad++
+				r.Bad("R11", fmt.Sprintf("%s#local-time-%s", fnID(fn), what), P.Pos(instrPos(at)),
+					"a time value in the host's local zone (from time."+ci.Name+") is queried with "+what+" in consensus scope: the result depends on the node's TZ setting", sc.S.Chain(fn)...)
+			}
+			for len(work) > 0 {
+				it := work[len(work)-1]
+				work = work[:len(work)-1]
+				if seen[it.v] || it.v.Referrers() == nil {
+					continue
+				}
+				seen[it.v] = true
+				for _, ref := range *it.v.Referrers() {
+					switch x := ref.(type) {
+					case *ssa.Phi, *ssa.ChangeType, *ssa.MakeInterface:
+						work = append(work, item{x.(ssa.Value), it.depth})
+					case *ssa.Store:
+						if al, ok := x.Addr.(*ssa.Alloc); ok && x.Val == it.v {
+							for _, r2 := range *al.Referrers() {
+								if u, ok := r2.(*ssa.UnOp); ok && u.Op == token.MUL {
+									work = append(work, item{u, it.depth})
+								}
+							}
+						}
+					case ssa.CallInstruction:
+						c2 := callInfo(x)
+						args := x.Common().Args
+						isRecv := !c2.Invoke && c2.Static != nil && c2.Static.Signature.Recv() != nil && len(args) > 0 && args[0] == it.v
+						if isRecv && c2.PkgPath == "time" {
+							if calendarMethods[c2.Name] {
+								report(x, c2.Name)
+							}
+							continue // UTC, In, Unix*, Before/After/Equal/Sub/Add (absolute) are zone-independent
+						}
+						// handed to a Haqq function: follow the parameter one level
+						if c2.Static != nil && c2.Static.Blocks != nil && it.depth < 2 && isHaqqPath(fnPkgPath(c2.Static)) {
+							for i, a := range args {
+								if a == it.v && i < len(c2.Static.Params) {
+									work = append(work, item{c2.Static.Params[i], it.depth + 1})
+								}
+							}
+						}
+					}
+				}
+			}
+		})
+	}
+	r.Count("R11 local-zone time constructions in S", n)
+	if bad == 0 {
+		r.OK("R11", "scope-S", "", fmt.Sprintf("%d local-zone time values constructed in consensus scope, none queried for calendar fields", n))
+	}
 }
